@@ -275,7 +275,7 @@ def symptom(res, diff):
     return "output"
 
 
-def report(units, res, name, origin, src=None):
+def report(units, res, name, origin, src=None, fallback_sig=None):
     diff = differing(res)
     have = [c for c in CFGNAMES if c in res]
     stats["diff_programs"] += 1
@@ -293,6 +293,8 @@ def report(units, res, name, origin, src=None):
     slug = classify_by_patch(msrc, name, diff, res["gcc0"][:2]) if msrc is not None else None
     if slug:
         sig = "C07:" + slug
+    elif fallback_sig:
+        sig = fallback_sig        # a corpus replay that names its own finding and that no candidate repair fixes
     elif cls == "all":
         sig = "C07:%s:all:%s" % (kind, symptom(res, diff))
     else:
@@ -349,7 +351,8 @@ if os.path.isdir(CORPUS):
             diff = differing(res)
             if not diff:
                 continue
-            sig = report(None, res, "corpus-" + f[:-2], "corpus/C07/" + f, src=open(os.path.join(CORPUS, f)).read())
+            sig = report(None, res, "corpus-" + f[:-2], "corpus/C07/" + f, src=open(os.path.join(CORPUS, f)).read(),
+                         fallback_sig=declared if mode == "known" else None)
             if mode == "known" and sig != declared:
                 ck.log("note: corpus/C07/%s is filed under %s but now classifies as %s" % (f, declared, sig))
 ck.stage("corpus", replayed=corpus_n)
